@@ -5,6 +5,7 @@
 #include <string.h>
 #include <time.h>
 #include <unistd.h>
+#include <sys/personality.h>
 #include "mvh.h"
 #include "myth/myth.h"
 
@@ -24,6 +25,10 @@ static const mvh_class *find_class(const char *n) {
   return 0;
 }
 
+/* a harness binary may override its name (used in replay files to find the binary again) */
+const char *mvh_harness_name __attribute__((weak)) = "mvh";
+static void (*plan_extra)(FILE *);
+void mvh_set_plan_extra(void (*fn)(FILE *)) { plan_extra = fn; }
 static const mvh_class *cur_class;
 static long cur_params[MVH_MAX_PARAMS];
 static void plan_dumper(FILE *f) {
@@ -32,6 +37,7 @@ static void plan_dumper(FILE *f) {
   fprintf(f, "],\n \"params\": [");
   for (int i = 0; i < cur_class->nparams; i++) fprintf(f, "%s%ld", i ? "," : "", cur_params[i]);
   fprintf(f, "],\n");
+  if (plan_extra) plan_extra(f);
   if (cur_class->describe) {
     char *buf = 0; size_t sz = 0;
     FILE *m = open_memstream(&buf, &sz);
@@ -112,6 +118,11 @@ int main(int argc, char **argv) {
       return 0;
     } else { fprintf(stderr, "unknown argument %s\n", argv[i]); return 2; }
   }
+  /* identical address-space layout in every process: memory-corruption bugs then replay too */
+  if (!getenv("MVH_NOASLR_DONE")) {
+    setenv("MVH_NOASLR_DONE", "1", 1);
+    if (personality(ADDR_NO_RANDOMIZE) != -1) execv("/proc/self/exe", argv);
+  }
   mvsim_global_init();
   setenv("MYTH_BIND_WORKERS", "0", 1);
 
@@ -165,7 +176,7 @@ int main(int argc, char **argv) {
       if (!strcmp(ov[k].name, "budget1")) { cfg.budget1 = (uint64_t)ov[k].val; found = 1; }
       if (!found) { fprintf(stderr, "--set: no parameter %s in class %s\n", ov[k].name, cname); return 2; }
     }
-    mvsim_set_context("mvh", cname, seed, i, outdir);
+    mvsim_set_context(mvh_harness_name, cname, seed, i, outdir);
     if (dump_plan) {
       printf("PLAN run=%ld ", i);
       if (c->describe) c->describe(cur_params, stdout);
